@@ -329,6 +329,9 @@ func TestEntries(t *testing.T) {
 		if e.Class != clsFunc {
 			rec.NT("entry:" + e.key())
 		}
+		if i%61 == rec.Shard() {
+			rec.Sample(sampleEntry(e))
+		}
 		var err error
 		if p := vlib.Try(func() { err = checkEntry(e) }); p != nil {
 			err = fmt.Errorf("panic while checking: %v", p)
@@ -340,6 +343,44 @@ func TestEntries(t *testing.T) {
 		}
 	}
 	rec.Exhaustive(true)
+}
+
+// sampleEntry renders one case verbatim for the evidence file: the key, what the
+// reference says it must be, and what the table holds.
+func sampleEntry(e *refEntry) map[string]interface{} {
+	m := map[string]interface{}{"test": "entry", "package": e.Pkg, "table": e.Table, "name": e.Name, "class": classNames[e.Class]}
+	pkg := imports.Packages[e.Pkg]
+	switch e.Table {
+	case "Binds":
+		m["table_value"] = show(pkg.Binds[e.Name])
+		switch e.Class {
+		case clsFunc, clsConst:
+			m["expected"] = show(e.V)
+		case clsVar:
+			m["expected"] = "variable at " + show(e.V)
+			if v := pkg.Binds[e.Name]; v.IsValid() && v.CanAddr() {
+				m["table_value"] = "variable at " + show(v.Addr())
+			}
+		case clsUntyped:
+			m["expected"] = "untyped " + e.UKind + " " + e.Exact
+		}
+	case "Types":
+		m["expected"] = fmt.Sprint(e.T)
+		m["table_value"] = fmt.Sprint(pkg.Types[e.Name])
+	case "Untypeds":
+		m["expected"] = "untyped " + e.UKind + " " + e.Exact
+		m["table_value"] = pkg.Untypeds[e.Name]
+	case "Proxies":
+		m["expected"] = fmt.Sprintf("struct forwarding %v of %v", e.Names, e.T)
+		m["table_value"] = fmt.Sprint(pkg.Proxies[e.Name])
+	case "Wrappers":
+		m["expected"] = fmt.Sprintf("subset of promoted methods %v", e.Names)
+		m["table_value"] = fmt.Sprint(pkg.Wrappers[e.Name])
+	}
+	if e.Class == clsMissing || e.Class == clsWrong {
+		m["expected"] = e.Detail
+	}
+	return m
 }
 
 // checkEntry compares the value behind one table key with the reference.
@@ -900,6 +941,11 @@ func TestInterp(t *testing.T) {
 			rec.Label("interp-" + mode + ":" + classNames[e.Class])
 			if e.Class != clsFunc {
 				rec.NT("interp:" + mode + ":" + e.key())
+			}
+			if i%397 == rec.Shard() {
+				rec.Sample(map[string]interface{}{"test": "interp", "mode": mode, "package": e.Pkg, "table": e.Table, "name": e.Name,
+					"class": classNames[e.Class], "read_as": map[class]string{clsFunc: "pkg.Name (code pointer)", clsVar: "&pkg.Name (address)",
+						clsConst: "pkg.Name (type, value)", clsUntyped: "pkg.Name == exact literal; default type", clsType: "new(pkg.Name) (type identity)"}[e.Class]})
 			}
 			var err error
 			if p := vlib.Try(func() { err = checkInterp(mode, e) }); p != nil {
